@@ -20,6 +20,7 @@ import (
 
 	"verif/explore"
 	"verif/harness/c03"
+	"verif/harness/c05"
 	"verif/harness/c06"
 	"verif/harness/hx"
 	"verif/runner"
@@ -29,8 +30,10 @@ import (
 // ---- universe ---------------------------------------------------------------
 
 var keys = []string{"a", "b"}
-var vers = []string{"-1", "0", "1", "2", "3", "x"}
-var vnum = []int{-1, 0, 1, 2, 3, 0}
+
+// the largest version does not fit in 32 bits (resource versions are etcd revisions: int64)
+var vers = []string{"-1", "0", "1", "2", "5000000000", "x"}
+var vnum = []int{-1, 0, 1, 2, 5000000000, 0}
 
 const nNumeric = 5 // vers[0:5] are numeric
 var labels = []string{"0", "1"}
@@ -768,6 +771,8 @@ func Property(id string) runner.Property {
 				// filtered subscriptions: replaying their events over the content read at readiness gives their cache
 				// (cheap; before the controller scenarios so that those inherit the unused share of the time budget)
 				out = append(out, c06.C02FilterScenarios(tier)...)
+				// a mirroring consumer does not diverge because a sibling subscription is closed while events flow
+				out = append(out, c05.SiblingScenarios("C02", tier)...)
 				out = append(out, c03.C02Controller(tier)...)
 			}
 			return out
